@@ -390,6 +390,55 @@ def negotiated_lifecycles(chk):
                           'allowed_versions=%r initial_version=%r, status query unanswered, then disconnect/connect twice more: %s are %s; expected %s' % (allowed, initial, k, str(obs[k])[:300], str(exp[k])[:200]))
 
 
+def reconnect_from_handler_after_compression(chk):
+    """A session in which the server switched compression on ends with an error; an exception handler connects again at once
+    (no disconnect() of its own): the successor is a fresh conversation - plain handshake and login start, it logs in, and the
+    object can afterwards be disconnected and connected a third time."""
+    from minecraft.networking.connection import Connection
+    import c09
+    for pv in (47, 340, 757):
+        ids = proto.Ids(pv)
+        for thr, how in ((64, 'eof'), (0, 'eof'), (256, 'garbage')):
+            first = [proto.frame(ids.set_compression, proto.varint(thr)), proto.frame(ids.login_success, ids.b_login_success(), thr)]
+            ok = [proto.frame(ids.login_success, ids.b_login_success()), proto.frame(ids.keep_alive, ids.b_keep_alive(3))]
+            servers = [sim.Server([b''.join(first) + (b'' if how == 'eof' else b'\xff\xff\xff\xff\xff\xff\xff')], end='eof' if how == 'eof' else 'idle'),
+                       sim.Server([b''.join(ok)], end='idle'), sim.Server([b''.join(ok)], end='idle')]
+            net = sim.Net(servers).install()
+            excs, log = [], []
+
+            def handler(e, info):
+                excs.append(e)
+                if len(excs) == 1:
+                    conn.connect()
+            try:
+                conn = Connection('localhost', 25565, username='user', allowed_versions={pv}, handle_exception=handler)
+                conn.connect()
+                net.run_threads(conn)
+                log.append('in play: %s' % bool(conn.connected))
+                conn.disconnect()
+                net.run_threads(conn)
+                conn.connect()
+                net.run_threads(conn)
+                log.append('third connection made')
+            except Exception as e:
+                log.append('raised ' + exn_name(e))
+            finally:
+                net.uninstall()
+            chk.count('handler-reconnect', [pv, thr, how], True)
+            heads = []
+            for srv in servers[1:]:
+                try:
+                    h = c09.parse_conn(None, b''.join(srv.sends))
+                    heads.append([h[0], h[3], h[4][0] if h[4] else None])
+                except Exception as e:
+                    heads.append(['unparseable', exn_name(e), b''.join(srv.sends)[:10].hex()])
+            exp_heads = [[pv, 2, 'login_start'], [pv, 2, 'login_start']]
+            if heads != exp_heads or log != ['in play: True', 'third connection made'] or len(excs) != 1:
+                chk.violation('handler-reconnect', 'handler-reconnect:%d:%d:%s' % (pv, thr, how), {'case': {'proto': pv, 'threshold': thr, 'first_session_ends_by': how}, 'expected': exp_heads, 'observed': {'connections': heads, 'calls': log, 'errors': [exn_name(e) for e in excs]}},
+                              'protocol %d, session with compression threshold %d ends by %s, the handler connects again: later connections open with %s, calls %s, errors %s' % (
+                                  pv, thr, how, heads, log, [exn_name(e) for e in excs]))
+
+
 def run(chk):
     # (the library's default status handler prints; nothing the connections print belongs in the check's output)
     import builtins
@@ -427,6 +476,7 @@ def run_(chk):
         hist.append(([rng.choice(base) for _ in range(n)], [rng.choice(SERVERS) for _ in range(6)], rng.choice(['none', 'none', 'listener', 'handler'])))
     sequential(chk, hist)
     negotiated_lifecycles(chk)
+    reconnect_from_handler_after_compression(chk)
     # two user threads
     small = [[['connect'], ['connect']], [['connect', 'disconnect'], ['connect']], [['connect'], ['disconnect', 'connect']],
              [['status'], ['connect']], [['connect', 'disconnect', 'connect'], ['disconnect']]]
